@@ -89,38 +89,43 @@ def outcomeOut : Outcome → String
 def outcomeOutS : Spec.Outcome → String
   | .ret n => numOut n | .threw => "throw"
 
-/-- index of the first non-finite number (by `bad`) not preceded by a thrower, if a later argument logs -/
-def stopsEarly (bad : FV → Bool) (as : List Arg) : Bool :=
-  let rec go : List Arg → Bool
-    | [] => false
-    | a :: rest => match a.val? with
-      | none => false
-      | some x => if bad x then rest.any Arg.logs else go rest
-  go as
+/-- region huge_field_cancel: a field trips the too-large guard (otto: NaN) although the exact integer
+    recomposition of §15.9.1.11–13 lands inside the range because other huge fields cancel it -/
+def utcHuge (args : List FV) : Bool :=
+  let get (i : Nat) (dflt : FV) : FV := (args[i]?).getD dflt
+  let year := get 0 zero
+  let integer := trunc year
+  let year := if le zero integer && le integer (.fin false 99 0) then add (.fin false 1900 0) integer else year
+  (args.take 7).all (fun x => (Spec.field? x).isSome) &&
+  tooLarge year (get 1 zero) (get 2 one) (get 3 zero) (get 4 zero) (get 5 zero) (get 6 zero) &&
+  (Spec.dateUTC args).isSome
 
-/-- a thrower is reached by otto's loop (no non-finite number before it) -/
-def reachesThrower (bad : FV → Bool) (as : List Arg) : Bool :=
-  let rec go : List Arg → Bool
-    | [] => false
-    | a :: rest => match a.val? with
-      | none => true
-      | some x => if bad x then false else go rest
-  go as
-
-def setterDev (k : Setter) (d : DateObj) (args : List Arg) : List String :=
+def setterHuge (k : Setter) (d : DateObj) (tv : Spec.TV) (args : List FV) : Bool :=
+  if k = .time then false else
   let as := args.take k.limit
-  let bad := fun x => (numberArg x).isNone
-  if k = .time then []
-  else if d.isNaN ∧ k ≠ .year then (if as.any Arg.logs then ["conv_skipped_on_invalid"] else [])
-  else (if stopsEarly bad as then ["conv_stops_at_nonfinite"] else [])
-       ++ (if k = .year ∧ d.isNaN ∧ reachesThrower bad as then ["fullyear_throw_resets"] else [])
+  match (if as.isEmpty then none else numberArgs as) with
+  | none => false
+  | some vs =>
+    if d.isNaN ∧ k ≠ .year then false else
+    let base := if d.isNaN then newDate zero else d
+    let e := applySetter k (newEcmaTime base.time) vs
+    tooLarge (ofInt e.year) (ofInt e.month) (ofInt e.day) (ofInt e.hour) (ofInt e.minute) (ofInt e.second) (ofInt e.millisecond) &&
+    (Spec.setUTC (toSpecSetter k) tv args).isSome
 
-def runBothS (d : DateObj) : List (Setter × List Arg) → List String → List String
+def runDev (d : DateObj) (tv : Spec.TV) : List (Setter × List FV) → List String → List String
   | [], devs => devs
   | (k, a) :: rest, devs =>
-    let devs := devs ++ setterDev k d a
-    let (d', _, _) := setUTCS k d a
-    runBothS d' rest devs
+    let devs := if setterHuge k d tv a then devs ++ ["huge_field_cancel"] else devs
+    runDev (setUTC k d a).1 (Spec.setUTC (toSpecSetter k) tv a) rest devs
+
+def argVals (as : List Arg) : List FV := as.filterMap Arg.val?
+
+def runDevS (d : DateObj) (tv : Spec.TV) : List (Setter × List Arg) → List String → List String
+  | [], devs => devs
+  | (k, a) :: rest, devs =>
+    let threw := (a.take k.limit).any (fun x => x.val?.isNone)
+    let devs := if !threw && setterHuge k d tv (argVals a) then devs ++ ["huge_field_cancel"] else devs
+    runDevS (setUTCS k d a).1 (Spec.setUTCS (toSpecSetter k) tv (a.map toSpecArg)).1 rest devs
 
 def devList (ds : List String) : String :=
   let ds := ds.eraseDups
@@ -153,7 +158,7 @@ def handle (ws : List String) : String :=
   | "utc" :: as => match as.mapM f64? with
     | some args =>
       if args.length < 2 then "bad-op" else
-      reply (numOut (newDateTime args)) (numOut (Spec.dateUTC args)) noDev
+      reply (numOut (newDateTime args)) (numOut (Spec.dateUTC args)) (if utcHuge args then "huge_field_cancel" else "-")
     | none => "bad-op"
   | "ctor" :: as => match as.mapM f64? with
     | some args =>
@@ -161,19 +166,20 @@ def handle (ws : List String) : String :=
       let m := match newDateTime args with
         | some i => newDate (ofInt i)
         | none => newDate .nan
-      reply (obsModel m) (obsSpec (Spec.dateUTC args)) noDev
+      reply (obsModel m) (obsSpec (Spec.dateUTC args)) (if utcHuge args then "huge_field_cancel" else "-")
     | none => "bad-op"
   | "set" :: a :: steps => match f64? a, steps.mapM step? with
     | some v, some hs =>
       let (df, rs) := runSetters (newDate v) hs
       let (tf, ss) := Spec.runSetters (Spec.clipNumber v) (hs.map (fun s => (toSpecSetter s.1, s.2)))
-      reply (join (rs.map numOut) ++ "|" ++ obsModel df) (join (ss.map numOut) ++ "|" ++ obsSpec tf) noDev
+      reply (join (rs.map numOut) ++ "|" ++ obsModel df) (join (ss.map numOut) ++ "|" ++ obsSpec tf)
+        (devList (runDev (newDate v) (Spec.clipNumber v) hs []))
     | _, _ => "bad-op"
   | "sset" :: a :: steps => match f64? a, steps.mapM sstep? with
     | some v, some hs =>
       let (df, rs) := runSettersS (newDate v) hs
       let (tf, ss) := Spec.runSettersS (Spec.clipNumber v) (hs.map (fun s => (toSpecSetter s.1, s.2.map toSpecArg)))
-      let devs := runBothS (newDate v) hs []
+      let devs := runDevS (newDate v) (Spec.clipNumber v) hs []
       reply (join (rs.map (fun r => logOut r.2 ++ ":" ++ outcomeOut r.1)) ++ "|" ++ obsModel df)
             (join (ss.map (fun r => logOut r.2 ++ ":" ++ outcomeOutS r.1)) ++ "|" ++ obsSpec tf) (devList devs)
     | _, _ => "bad-op"
@@ -182,7 +188,8 @@ def handle (ws : List String) : String :=
       if args.length < 2 then "bad-op" else
       let (mo, ml) := newDateTimeS args
       let (so, sl) := Spec.dateUTCS (args.map toSpecArg)
-      let dev := if stopsEarly (fun x => isNaN x || isInf x) (args.take 7) then ["conv_stops_at_nonfinite"] else []
+      let threw := (args.take 7).any (fun x => x.val?.isNone)
+      let dev := if !threw && utcHuge (argVals args) then ["huge_field_cancel"] else []
       reply (logOut ml ++ ":" ++ outcomeOut mo) (logOut sl ++ ":" ++ outcomeOutS so) (devList dev)
     | none => "bad-op"
   | _ => "bad-op"
